@@ -436,3 +436,5 @@ MANIFEST = {
     'technique': 'pairing/ownership analysis over CFG paths with exception edges + typestate',
     'design_ref': 'DESIGN.md 3/C10',
 }
+MANIFEST['note'] += (' Also decided here (necessary conditions shared between properties or added after the independent '
+                     'change rounds, DESIGN.md 8.7): endpoints of the successor IKE_SA (from C01), kernel teardown (both halves, tolerant delete_sa).')
